@@ -23,6 +23,9 @@ CONSTANTS
   FlushEntry = TRUE
   UnmapOnDrop = TRUE
   Linear = TRUE
+  AllowNested = FALSE
+  OthersCall = "never"
+  KeepPagesWritable = FALSE
   UserCalls = TRUE
   MaxUserCalls = 3
   InstallKinds = {"jump"}
